@@ -8,6 +8,7 @@ from contracts import c02_remove_metabolites as RM
 from contracts import c02_rxn_add_metabolites as RAM
 from contracts import c02_add_reactions as AR
 from contracts import c02_remove_reactions_ctx as RRC
+from contracts import c02_add_reactions_ctx as ARC
 from contracts import c12_rxn_arith as ARITH
 from contracts import c02_add_metabolites_ctx as AMC
 from contracts import c02_remove_metabolites_ctx as RMC
@@ -34,9 +35,11 @@ KEYS_RR = ["Model.remove_reactions"]
 def run(rep):
     run_property(rep, KEYS, more=[(RENAME_KEYS, c02_rename.HOOKS), (BOUNDARY_KEYS, c02_boundary.HOOKS), (KEYS_UG, U.HOOKS), (KEYS_AM, AM.HOOKS),
                                    (KEYS_RR, RR.HOOKS), (GR.KEYS, GR.HOOKS), (RM.KEYS, RM.HOOKS), (RAM.KEYS, RAM.HOOKS),
-                                   (RAM.KEYS_SUB, RAM.HOOKS_SUB), (AR.KEYS, AR.HOOKS), (RRC.KEYS, RRC.HOOKS),
+                                   (RAM.KEYS_SUB, RAM.HOOKS_SUB), (AR.KEYS, AR.HOOKS), (RRC.KEYS, RRC.HOOKS), (ARC.KEYS, ARC.HOOKS),
                                    (AMC.KEYS, AMC.HOOKS), (RMC.KEYS, RMC.HOOKS), (RG.KEYS, RG.HOOKS)] + list(ARITH.GROUPS),
-                 lemmas=lambda: U.lemmas() + RAM.lemmas() + RRC.lemmas() + ARITH.lemmas() + AMC.lemmas() + RMC.lemmas(), explanation=(
+                 lemmas=lambda: (U.lemmas() + RAM.lemmas() + RRC.lemmas() + ARC.lemmas() + ARITH.lemmas() + AMC.lemmas()
+                                 + RMC.lemmas()), explanation=(
+        "Model.add_reactions with a context open (key Model.add_reactions[context]; lists, models and stoichiometries of any size, any depth of the context stack): the final state exactly as the no-context contract proves it (same formulas) PLUS the undo registrations as a ghost trace, all in the INNERMOST context, nothing twice: per added reaction r a block setattr(r, _model, None), then for every key x of r._metabolites at exit x._reaction.remove(r) - registered only where the x._reaction.add(r) it inverts changed the set - or the recorded call add_metabolites(x) (x joined; the callee's own registrations, ASSUMED: in a context it changes the state as its no-context contract says), then the recorded call r.update_genes_from_gpr() (its proved in-context case), blocks in the order of pruned, and last reactions.__isub__(pruned) registered after `reactions += pruned`; glue lemmas undo-restores (membership of model.reactions, _model of reactions, _reaction sets of the entry members of model.metabolites); stated precondition own-keys-do-not-list (a key of a to-be-added reaction that is a member of model.metabolites does not list it at entry: otherwise the unguarded else-branch registers a remove for a no-op add - not reachable through the public API at the repaired commit); the re-pointing of the stoichiometry keys has no inverse and needs none (the reaction is outside the model at entry and exit). "
         "Deductive part: the clauses `identifiers are unique` and `every listed object is the one found by looking up its "
         "identifier` hold because every model edit changes model.reactions/metabolites/genes/groups only through the DictList "
         "operations listed here, each proved (C15 contracts, unbounded) to preserve the representation invariant and to produce "
@@ -176,7 +179,8 @@ def run(rep):
         "registered undo functions do when they run are NOT "
         "proved - those functions mix sympy/optlang calls, string parsing and nested loops outside the supported subset: bounded "
         "driver (histories compared step by step with an executable reference description + Inv_XRef after every step)."),
-        trusted=["add_metabolites / remove_metabolites in a context: context(f) = HistoryManager.__call__ by its proved contract, recorded "
+        trusted=["Model.add_reactions[context]: at the call site self.add_metabolites(metabolite) with a context open the callee is ASSUMED to change model.metabolites / _model / _reaction as its no-context contract (proved without a context only) says - its precondition without `no context open` is obliged - and to register its own undos (recorded call, not looked at); the callees' own undos are ASSUMED (glue lemmas only) to touch _model / _reaction of joined metabolites and genes only; stated precondition own-keys-do-not-list",
+                 "add_metabolites / remove_metabolites in a context: context(f) = HistoryManager.__call__ by its proved contract, recorded "
                  "in a ghost trace; the list returned by Model.get_associated_groups has no duplicates (assumed consequence of its proved "
                  "post-condition); the trace clauses are stated under a free Boolean gate (proved for both values)",
                  "CPython list/dict semantics as axiomatised", "copy.deepcopy returns a fresh detached object (assumed)",
